@@ -62,6 +62,14 @@ func (c13) Gen(seed uint64, tier string) *Scenario {
 			"SELECT id, DATETIME_FORMAT(@d, '%Y-%m-' || STRING(id % 9)), DATETIME(STRING(2000 + id % 30) || '-01-02 03:04:05'), ADD_DAY(@d, id) FROM a;",
 			"SELECT id, REGEXP_REPLACE(s, '[' || STRING(id % 3) || 'a-c]', '_'), REGEXP_FIND(s, '[a-z]+' || STRING(id % 4) || '?'), s LIKE '%' || STRING(id % 3) || '%' FROM a;"))
 	}
+	// per-row evaluation that reaches objects of the session shared by all workers: a cursor fetched by a
+	// function, a variable assigned in the select list, a temporary table a function inserts into
+	if r.Bool(0.2) {
+		m.Stmts = append(m.Stmts, r.PickS(
+			"DECLARE wc CURSOR FOR SELECT id FROM b; OPEN wc; DECLARE wfetch FUNCTION (@x) AS BEGIN VAR @c; FETCH wc INTO @c; RETURN @x; END; SELECT COUNT(wfetch(id)) FROM a; SELECT CURSOR wc IS IN RANGE, CURSOR wc COUNT; CLOSE wc; DISPOSE CURSOR wc; DISPOSE FUNCTION wfetch;",
+			"VAR @cnt := 0; SELECT COUNT(@cnt := @cnt + 1) FROM a; DISPOSE @cnt;",
+			"DECLARE wv VIEW (k); DECLARE wins FUNCTION (@x) AS BEGIN INSERT INTO wv VALUES (@x); RETURN @x; END; SELECT COUNT(wins(id)) FROM a WHERE id % 7 = 0; SELECT COUNT(*) FROM wv; DISPOSE FUNCTION wins; DISPOSE VIEW wv;"))
+	}
 	cancelled := r.Bool(0.3)
 	if cancelled {
 		// programs that are cancelled end with statements whose evaluation has several
